@@ -260,6 +260,10 @@ class ConsumerMdib(mdibbase.MdibBase):
             # process buffered notifications
             with self._buffered_notifications_lock:
                 self._logger.debug('got _buffered_notifications_lock')
+                # reports up to this version are contained in the GetMdib response. Compare with this fixed value:
+                # a transaction can send multiple reports with the same mdib version, none of them shall be skipped.
+                # The handlers themselves reject a report that is older than a previously processed one.
+                initial_mdib_version = self.mdib_version
                 for buffered_report in self._buffered_notifications:
                     # buffered data might contain notifications that do not fit.
                     if buffered_report.mdib_version_group.sequence_id != self.sequence_id:
@@ -268,7 +272,7 @@ class ConsumerMdib(mdibbase.MdibBase):
                             buffered_report.mdib_version_group.sequence_id,
                         )
                         continue
-                    if buffered_report.mdib_version_group.mdib_version <= self.mdib_version:
+                    if buffered_report.mdib_version_group.mdib_version <= initial_mdib_version:
                         self.logger.debug(
                             'older mdib version "%d"; ignore buffered report',
                             buffered_report.mdib_version_group.mdib_version,
